@@ -197,18 +197,25 @@ func appendEvents(path string, events []Event) error {
 		return err
 	}
 	defer file.Close()
+	if len(events) == 0 {
+		return nil
+	}
+	// Encode everything first and issue a single write, so a crash cannot
+	// leave only part of a command's events in the log.
+	var buf []byte
 	for _, event := range events {
 		data, err := json.Marshal(event)
 		if err != nil {
 			return err
 		}
-		line := append(data, '\n')
-		verifPoint("append.before")
-		if err := writeAll(file, line); err != nil {
-			return err
-		}
-		verifPoint("append.after")
+		buf = append(buf, data...)
+		buf = append(buf, '\n')
 	}
+	verifPoint("append.before")
+	if err := writeAll(file, buf); err != nil {
+		return err
+	}
+	verifPoint("append.after")
 	return nil
 }
 
